@@ -180,6 +180,7 @@ func activeTol() pgen.Tol {
 //     recoverable nil dereference for pointer-free elements but a fatal
 //     "bulkBarrierPreWrite: unaligned arguments" when the GC is marking;
 //   - map-entry-length-varint-boundary.
+//
 // The predicates rebuild the value, so they are only evaluated for classes
 // that are listed as known.
 func activePreClass(c Case) string {
@@ -662,12 +663,12 @@ func st(fields ...pgen.FieldDesc) pgen.TypeDesc {
 	return pgen.TypeDesc{K: pgen.KStruct, Fields: fields}
 }
 func fld(t pgen.TypeDesc) pgen.FieldDesc { return pgen.FieldDesc{T: t} }
-func lf(k string) pgen.TypeDesc         { return pgen.TypeDesc{K: k} }
-func pt(t pgen.TypeDesc) pgen.TypeDesc  { return pgen.TypeDesc{K: pgen.KPtr, Elem: &t} }
-func slc(t pgen.TypeDesc) pgen.TypeDesc { return pgen.TypeDesc{K: pgen.KSlice, Elem: &t} }
-func nm(n string) pgen.TypeDesc         { return pgen.TypeDesc{K: pgen.KNamed, Name: n} }
-func rs(e ...pgen.Recipe) pgen.Recipe   { return pgen.Recipe{E: e} }
-func ru(u uint64) pgen.Recipe           { return pgen.Recipe{U: u} }
+func lf(k string) pgen.TypeDesc          { return pgen.TypeDesc{K: k} }
+func pt(t pgen.TypeDesc) pgen.TypeDesc   { return pgen.TypeDesc{K: pgen.KPtr, Elem: &t} }
+func slc(t pgen.TypeDesc) pgen.TypeDesc  { return pgen.TypeDesc{K: pgen.KSlice, Elem: &t} }
+func nm(n string) pgen.TypeDesc          { return pgen.TypeDesc{K: pgen.KNamed, Name: n} }
+func rs(e ...pgen.Recipe) pgen.Recipe    { return pgen.Recipe{E: e} }
+func ru(u uint64) pgen.Recipe            { return pgen.Recipe{U: u} }
 
 // witnessCases: one concrete failing input per class.
 func witnessCases() map[string]Case {
